@@ -5,7 +5,7 @@ use std::time::{Duration, Instant};
 use serde_json::json;
 
 use crate::crashx::*;
-use crate::props_seq::{cfgs, k3, workers};
+use crate::props_seq::{cfgs, k3, k4, workers};
 use crate::report::{Finding, Report};
 use crate::world::*;
 
@@ -76,6 +76,17 @@ pub fn shrink_history() -> Vec<History> {
         ops: vec![
             Put(0, 0), Put(1, 0), Put(2, 0), Del(0), Put(1, 0), Batch(vec![(0, true), (2, true)]), Del(2), Put(2, 0), Reopen(1), Put(0, 0), Del(1), Reopen(2),
             Put(1, 0), Reopen(3), Batch(vec![(0, false), (1, true)]), Reopen(0), Put(2, 0),
+        ],
+    });
+    // levels 1..=5 limited to 250 bytes: every flush sets off a cascade of size-triggered
+    // compactions and trivial moves down to the last level (crash / fault inside the cascade)
+    v.push(History {
+        name: "cover-levels/L->Ln".to_string(),
+        cfgs: cfgs(&["L", "Ln"]),
+        keys: k4(),
+        ops: vec![
+            Put(0, 0), Flush, Put(1, 0), Flush, Put(2, 0), Flush, Put(3, 0), Flush, Put(0, 0), Flush, Put(1, 0), Flush, Del(2), Flush, Put(3, 0), Reopen(1),
+            Put(0, 0), Flush, Del(1), Flush, Batch(vec![(2, true), (3, true)]), Flush, Put(1, 0), Reopen(0), Put(2, 0), Flush,
         ],
     });
     v
